@@ -321,4 +321,64 @@ theorem snapInv_stepH (cfg : Cfg) (cache) (σ σ' : State) (c : Conn) (hL : Lock
    snap_uheld_stepH cfg cache σ σ' c hL hI hs, snap_hheld_stepH cfg cache σ σ' c hL hI hs,
    snap_pend_stepH cfg cache σ σ' c hI hs⟩
 
+/-! ## updater actions -/
+
+/-- a store goes only to a module whose update lock is free -/
+theorem stepU_cache_locked (cfg : Cfg) (σ σ' : State) (k : Nat) (arg : Conn) (hs : stepU cfg σ k arg = some σ')
+    (m' : Mod) (p' : Par) (h : σ.upd m' ≠ none) : σ'.cache m' p' = σ.cache m' p' := by
+  unfold stepU at hs
+  step_cases hs
+  all_goals try rfl
+  all_goals
+    dsimp only
+    split
+    · rename_i hh; rw [hh.1] at h; contradiction
+    · rfl
+
+theorem snap_cur_stepU (cfg : Cfg) (cache) (σ σ' : State) (k : Nat) (arg : Conn) (hI : SnapInv cfg cache σ)
+    (hs : stepU cfg σ k arg = some σ') : (snapAfter cfg cache σ'.trace).cur = σ'.cache := by
+  have hcur := hI.cur
+  unfold stepU at hs
+  step_cases hs
+  all_goals (try exact hcur)
+  all_goals
+    try dsimp only
+    try split
+    all_goals simp [snapAfter_append, hcur]
+
+theorem snap_hheld_stepU (cfg : Cfg) (cache) (σ σ' : State) (k : Nat) (arg : Conn) (hL : LockInv σ)
+    (hI : SnapInv cfg cache σ) (hs : stepU cfg σ k arg = some σ') :
+    ∀ c m p e, hHeld (σ'.hpc c) = some (m, p, e) → σ'.cache m p = e := by
+  obtain ⟨_, f2, _⟩ := stepU_frame cfg σ σ' k arg hs
+  intro c m p e h
+  rw [f2] at h
+  have h1 := (hL.upd m (.h c)).1 (hHeld_holds h)
+  rw [stepU_cache_locked cfg σ σ' k arg hs m p (by simp [h1])]
+  exact hI.hheld c m p e h
+
+theorem snap_uheld_stepU (cfg : Cfg) (cache) (σ σ' : State) (k : Nat) (arg : Conn) (hL : LockInv σ)
+    (hI : SnapInv cfg cache σ) (hs : stepU cfg σ k arg = some σ') :
+    ∀ k' m p e, uHeld (σ'.upc k') = some (m, p, e) → σ'.cache m p = e := by
+  intro k' m p e h
+  by_cases hk : k' = k
+  · subst hk
+    have hold := hI.uheld k'
+    unfold stepU at hs
+    step_cases hs
+    all_goals
+      simp only [set_same] at h
+      try (simp at h; done)
+    all_goals
+      simp only [uHeld_wantSub, uHeld_sending, Option.some.injEq, Prod.mk.injEq] at h
+      obtain ⟨h1, h2, h3⟩ := h
+      subst h1 h2 h3
+      first
+      | (simp; done)
+      | exact hold _ _ _ (by simp [*])
+  · obtain ⟨f1, _⟩ := stepU_frame cfg σ σ' k arg hs
+    rw [f1, set_other _ _ _ _ hk] at h
+    have h1 := (hL.upd m (.u k')).1 (uHeld_holds h)
+    rw [stepU_cache_locked cfg σ σ' k arg hs m p (by simp [h1])]
+    exact hI.uheld k' m p e h
+
 end Frappy.Activate
